@@ -75,10 +75,10 @@ func lintWith(p *core.Proc, old, new Schema, gen bool) (*lintResp, error) {
 		return nil, fmt.Errorf("rendered schema does not parse (harness bug): old=%q new=%q\n%s\n---\n%s",
 			r.ParseErrOld, r.ParseErrNew, RenderBody(old), RenderBody(new))
 	}
-	if !reflect.DeepEqual(r.ShapeOld, Shape(old)) {
+	if !reflect.DeepEqual(maskImplicitTags(r.ShapeOld), Shape(old)) {
 		return nil, fmt.Errorf("parsed structure of the old schema differs from the model:\n%v\n%v", r.ShapeOld, Shape(old))
 	}
-	if !reflect.DeepEqual(r.ShapeNew, Shape(new)) {
+	if !reflect.DeepEqual(maskImplicitTags(r.ShapeNew), Shape(new)) {
 		return nil, fmt.Errorf("parsed structure of the new schema differs from the model:\n%v\n%v", r.ShapeNew, Shape(new))
 	}
 	if r.GenErrOld != "" {
@@ -223,9 +223,19 @@ func baseValueCounts(c *core.Ctx, bs []NamedBase) ([]int, error) {
 func chooseBases(c *core.Ctx, l *linter, nProto, nRandom, maxValues int) ([]NamedBase, error) {
 	protos := protoBases()
 	if nProto < len(protos) {
-		// rotate by seed so that different seeds exercise different prototype fragments in the quick tier
-		k := int(c.Seed) % len(protos)
-		protos = append(protos[k:], protos[:k]...)[:nProto]
+		// rotate by seed so that different seeds exercise different prototype fragments in the quick tier;
+		// the base with implicitly tagged combinators is always kept
+		var keep NamedBase
+		var rest []NamedBase
+		for _, b := range protos {
+			if b.Name == "proto/implicitTags" {
+				keep = b
+			} else {
+				rest = append(rest, b)
+			}
+		}
+		k := int(c.Seed) % len(rest)
+		protos = append(append(rest[k:], rest[:k]...)[:nProto-1], keep)
 	}
 	var cands []NamedBase
 	tried, invalid, tooBig := 0, 0, 0
@@ -254,6 +264,17 @@ func chooseBases(c *core.Ctx, l *linter, nProto, nRandom, maxValues int) ([]Name
 		return nil, fmt.Errorf("vacuous: %d of %d random bases rejected by the generator front end", invalid, tried)
 	}
 	all := append(append([]NamedBase{}, protos...), cands...)
+	for i := range all {
+		// implicitly tagged combinators of a base get the tag the real front end computes (Combinator.Crc32())
+		all[i].S = all[i].S.norm()
+		r, err := l.lint(all[i].S, all[i].S)
+		if err != nil {
+			return nil, err
+		}
+		if all[i].S, err = withEffectiveTags(all[i].S, r.ShapeOld); err != nil {
+			return nil, err
+		}
+	}
 	counts, err := baseValueCounts(c, all)
 	if err != nil {
 		return nil, err
